@@ -814,7 +814,10 @@ class H3Connection:
             if not self._is_client:
                 raise FrameUnexpected("Clients must not send PUSH_PROMISE")
             frame_buf = Buffer(data=frame_data)
-            push_id = frame_buf.pull_uint_var()
+            try:
+                push_id = frame_buf.pull_uint_var()
+            except BufferReadError:
+                raise FrameError("PUSH_PROMISE frame is truncated")
             headers = self._decode_headers(
                 stream.stream_id, frame_data[frame_buf.tell() :]
             )
